@@ -11,6 +11,10 @@ import refcodec
 from lib import hx
 from corr.c01 import SegStream, ename
 
+EXTRA_PROPS = ['C15Thread']
+
+EXTRACT = ['gen.c15thread']
+
 RULE = ("(a) 5 kinds of frame streams x every prefix length 0..N x {whole, bytewise, random} "
         "segmentation; (b) status / status-then-login / login+compression / login+encryption / play "
         "conversations from the reference server cut at every offset (quick: every offset of the short "
